@@ -6,7 +6,9 @@ Driver commands for C07 / C12 (model name `c07`).
 * `<batch>`  call ids by position, `.`-joined (`-` = empty batch)
 * `<meta>`   per call id `table:b|n:region:a|d` (`d` = own context done when the multis were built)
 * `<rounds>` `/`-joined `loc;ans;ord;cancel` (what the harness scripted / observed per retry round):
-  `loc` per id: client number | `C` (batch context error) | `L` (client closed) | `E<tag>`;
+  `loc` per id: client number | `C` (batch context error) | `L` (client closed) | `E<tag>` |
+  `O` (the call's own context was done when its region could not be located and the batch context
+  was alive: only that call is failed, with its own-context error);
   `ans` per id: `k<m>` ok | `r<t>` retryable | `n<t>` not serving | `s<t>` server | `f<t>` fatal |
   `o` no answer, own context done | `_` no answer; `ord` = clients in the observed QueueBatch order;
   `cancel`: `-` | `w<id>` at the wait on call id | `e<id>` right after the wait on call id |
@@ -49,6 +51,11 @@ def parseLoc (s : String) : Option (Except Err Nat) :=
     | some ('E', t) => some (.error (.other t))
     | _ => s.toNat?.map .ok
 
+/-- the `loc` field: one token per call id (`O` needs the id) -/
+def parseLocs (ls : List String) : Option (List (Except Err Nat)) :=
+  (ls.zip (List.range ls.length)).mapM fun (s, i) =>
+    if s = "O" then some (.error (.ownCtx i)) else parseLoc s
+
 def parseAns (s : String) : Option Ans :=
   if s = "o" then some .ownDone
   else if s = "_" then some .silent
@@ -84,7 +91,7 @@ structure PRound where
 def parseRound (s : String) : Option PRound :=
   match s.splitOn ";" with
   | [l, a, o, c] => do
-    let l ← (splitDot l).mapM parseLoc
+    let l ← parseLocs (splitDot l)
     let a ← (splitDot a).mapM parseAns
     let o ← nats o
     let c ← parseCancel c
@@ -299,6 +306,7 @@ def handle : List String → String
             (if mr.events.any (fun e => match e with | .sleep _ => true | _ => false) then ["backoff"] else []) ++
             (if mr.res.any (fun s => match s.err with | some (.ownCtx _) => true | _ => false) then ["own-ctx"] else []) ++
             (if prs.any (fun p => p.loc.any (fun l => match l with | .error _ => true | _ => false)) then ["locate-error"] else []) ++
+            (if prs.any (fun p => p.loc.any (fun l => match l with | .error (.ownCtx _) => true | _ => false)) then ["own-locate"] else []) ++
             (if q.any (fun r => (dedup (r.calls.map region)).length > 1) then ["multi-region-group"] else []) ++
             (if mr.allOK then ["allok"] else ["notok"])
           "OK tags=" ++ ",".intercalate tags
